@@ -235,7 +235,8 @@ static json run_job(const json& job)
             try { s1 = e1.str(); } catch (const std::exception& e) { r["status"] = "str-threw"; r["what"] = std::string(demangle(typeid(e).name())) + ": " + e.what(); r["t1"] = vh::expr_tree(e1, doc.get(), false); arr.push_back(r); continue; }
             r["s1"] = s1;
             r["t1"] = vh::expr_tree(e1, nullptr, false);
-            if (!parse_one(s1, e2, i2)) { r["status"] = "reparse-failed"; r["second"] = i2; arr.push_back(r); continue; }
+            // reparse_prefix: what a game query puts in front of the path formula (PropInfo::intermediate is the formula without it)
+            if (!parse_one(rj.value("reparse_prefix", std::string()) + s1, e2, i2)) { r["status"] = "reparse-failed"; r["second"] = i2; arr.push_back(r); continue; }
             r["t2"] = vh::expr_tree(e2, nullptr, false);
             r["equal"] = e1.equal(e2);
             try { r["s2"] = e2.str(); } catch (const std::exception& e) { r["s2"] = nullptr; }
